@@ -200,6 +200,81 @@ Definition cube_response {R} (a : rarg R) : rjson R :=
   let j := match a with ArgDict j => j | ArgText j => j end in
   match j with JEnvelope v => v | JResp _ => j end.
 
+(* number of dimension dicts of every caller-owned response after the history *)
+Definition rrun_state (r0 : nat -> nat) (ops : list rop) : nat -> nat :=
+  fst (fold_left rstep ops (r0, [])).
+(* the responses an operation is given *)
+Definition touches (x : rop) : list nat := match x with MkCube i => [i] | MkSet l => l end.
+(* the operation is a numeric-measure CubeSet on PRISTINE responses *)
+Definition numeric0 (r0 : nat -> nat) (x : rop) : bool :=
+  match x with MkSet l => is_numeric_set r0 l | MkCube _ => false end.
+
+(* ---- Part 3: Cube.augment_response (single-filter-column cubes of a multi-cube set) ------------ *)
+(* what augment_response reads and rewrites IN the caller's response: result.counts (=
+   measures.count.data afterwards) and the (id, value) pairs of the elements of dimension 0;
+   value None = a JSON object ({"?": -1}, the missing element): isinstance(value, (int, str))
+   fails and `value in values` is False *)
+Record aresp : Type := mk_aresp { a_counts : list Z; a_elems : list (ident * option ident) }.
+
+Definition a_values (f : aresp) : list ident :=
+  flat_map (fun e => match snd e with Some v => [v] | None => [] end) (a_elems f).
+(* positions = [item["id"] for item in summary_elements if item["value"] in values] *)
+Definition a_positions (s : aresp) (vals : list ident) : list ident :=
+  flat_map (fun e => match snd e with
+                     | Some v => if py_in v vals then [fst e] else []
+                     | None => [] end) (a_elems s).
+(* data[pos] = value  (Python list: negative positions count from the end; None = raises) *)
+Definition py_setitem (l : list Z) (pos : ident) (v : Z) : option (list Z) :=
+  match pos with
+  | IInt z =>
+    let n := Z.of_nat (List.length l) in
+    if ((0 <=? z)%Z && (z <? n)%Z)%bool then Some (set_nth (Z.to_nat z) v l)
+    else if ((- n <=? z)%Z && (z <? 0)%Z)%bool then Some (set_nth (Z.to_nat (n + z)) v l)
+    else None
+  | _ => None
+  end.
+Fixpoint a_fill (data : list Z) (pv : list (ident * Z)) : option (list Z) :=
+  match pv with
+  | [] => Some data
+  | (p, v) :: t => match py_setitem data p v with
+                   | Some d' => a_fill d' t
+                   | None => None
+                   end
+  end.
+(* augment_response of filter cube f against the summary cube s: the new content of f *)
+Definition augment (f s : aresp) : option aresp :=
+  if Nat.eqb (List.length (a_counts f)) (List.length (a_counts s)) then Some f
+  else
+    match a_fill (repeat 0%Z (List.length (a_counts s)))
+                 (combine (a_positions s (a_values f)) (a_counts f)) with
+    | Some data => Some (mk_aresp data (a_elems s))
+    | None => None
+    end.
+
+(* the content of the caller's filter response afterwards: the elements are replaced BEFORE the
+   counts are computed, so an IndexError / TypeError of data[pos] = value leaves the response with
+   the summary's elements and its own counts *)
+Definition augment_left (f s : aresp) : aresp :=
+  match augment f s with
+  | Some f' => f'
+  | None => mk_aresp (a_counts f) (a_elems s)
+  end.
+
+(* a tabbook-like history over one summary response s and one filter response f (caller-owned):
+   ASet = CubeSet([s, f]) reads the counts of its second cube, ACube = Cube(f) alone *)
+Inductive aop : Type := ASet | ACube.
+Definition astep (s : aresp) (st : aresp * list (option (list Z))) (x : aop)
+  : aresp * list (option (list Z)) :=
+  let (f, out) := st in
+  match x with
+  | ACube => (f, out ++ [Some (a_counts f)])
+  | ASet => (augment_left f s, out ++ [option_map a_counts (augment f s)])
+  end.
+Definition a_run (s f0 : aresp) (ops : list aop) : list (option (list Z)) :=
+  snd (fold_left (astep s) ops (f0, [])).
+Definition a_run_pristine (s f0 : aresp) (ops : list aop) : list (option (list Z)) :=
+  map (fun x => match snd (astep s (f0, []) x) with [k] => k | _ => None end) ops.
+
 (* ---- rendering ------------------------------------------------------------------------------ *)
 Local Open Scope Z_scope.
 Definition r_aval (v : aval) : list Z :=
@@ -212,3 +287,6 @@ Definition r_pkind (k : pkind) : list Z := match k with Nub => [0] | Strand => [
 Definition r_pkinds (l : list (list pkind)) : list Z := r_lst (r_lst r_pkind) l.
 Definition dicts_of (l : list xf) : nat -> xf := fun i => nth i l (mk_xf None None None None).
 Definition ndims_of (l : list nat) : nat -> nat := fun i => nth i l 0%nat.
+Definition r_aresp (a : aresp) : list Z :=
+  r_lst (fun z => [z]) (a_counts a) ++ r_lst (fun e => r_ident (fst e) ++ r_option r_ident (snd e)) (a_elems a).
+Definition r_zs (l : list Z) : list Z := r_lst (fun z => [z]) l.
